@@ -22,10 +22,11 @@ def run(ctx):
         big = {"9999", "10001", "20001", "60000"}
         special = [c for c in cases if c["special"] != "none"]
         large = [c for c in cases if c["n"] in big and c["special"] == "none" and c["n"] != "60000"]
-        rest = [c for c in cases if c["special"] == "none" and c["n"] not in big]
+        lengths = [c for c in cases if c["keys"] in ("lengths", "65535") and c["special"] == "none"]
+        rest = [c for c in cases if c["special"] == "none" and c["n"] not in big and c["keys"] not in ("lengths", "65535")]
         ctx.rng.shuffle(rest)
         ctx.rng.shuffle(large)
-        cases = special + large[:6] + rest[:1200]
+        cases = special + lengths + large[:6] + rest[:1150]
     casep = ctx.write_ndjson("cases.ndjson", cases)
     ov = ctx.overlay(pkg_files={"compactindexsized": ["c04_test.go"]})
     b = ctx.go_build("./compactindexsized", ov, name="ci")
